@@ -377,3 +377,85 @@ pub fn mfi_ref_ex(bars: &[RawBar], n: usize, sep: f64, allow_exact_sums: bool) -
     }
     MfiOut { pmf, nmf, tainted, max_flow_in_window: mx }
 }
+
+#[cfg(test)]
+mod tests {
+    use super::*;
+    #[test]
+    fn window_stats_on_known_values() {
+        let w = [2.0, 4.0, 4.0, 4.0, 5.0, 5.0, 7.0, 9.0];
+        assert_eq!(mean(&w).to_f64(), 5.0);
+        assert_eq!(var_pop(&w).to_f64(), 4.0);
+        assert_eq!(mad(&w).to_f64(), 1.5);
+        // weights 1..3, newest heaviest: (1*1 + 2*2 + 3*6)/6
+        assert!((wma(&[1.0, 2.0, 6.0]).to_f64() - 23.0 / 6.0).abs() < 1e-15);
+        assert_eq!(wmin(&w), 2.0);
+        assert_eq!(wmax(&w), 9.0);
+    }
+    #[test]
+    fn ema_recursion_matches_closed_form_and_doc_example() {
+        // the crate's own doc example: EMA(3) of 2, 5, 1, 6.25 = 2, 3.5, 2.25, 4.25
+        let mut e = EmaRef::new(3);
+        let xs = [2.0, 5.0, 1.0, 6.25];
+        let want = [2.0, 3.5, 2.25, 4.25];
+        let mut dd = vec![];
+        for (x, w) in xs.iter().zip(want) {
+            let r = e.next(DD::from(*x));
+            dd.push(DD::from(*x));
+            assert_eq!(r.to_f64(), w);
+            assert!(ema_closed_form(3, &dd).sub(r).abs().to_f64() < 1e-28);
+        }
+    }
+    #[test]
+    fn oscillator_references_on_hand_computed_cases() {
+        // ROC(2): 10, 11, 12 -> lookback is the first price until 2 earlier prices exist
+        assert_eq!(roc_ref(&[10.0], 2).unwrap().val.to_f64(), 0.0);
+        assert!((roc_ref(&[10.0, 11.0], 2).unwrap().val.to_f64() - 10.0).abs() < 1e-13);
+        assert!((roc_ref(&[10.0, 11.0, 12.0], 2).unwrap().val.to_f64() - 20.0).abs() < 1e-13);
+        assert!((roc_ref(&[10.0, 11.0, 12.0, 12.1], 2).unwrap().val.to_f64() - 10.0).abs() < 1e-12);
+        // ER(2): 1, 3, 2 -> |2-1| / (|3-1| + |2-3|) = 1/3 ; flat -> None
+        assert!((er_ref(&[1.0, 3.0, 2.0], 2).unwrap().val.to_f64() - 1.0 / 3.0).abs() < 1e-15);
+        assert!(er_ref(&[5.0, 5.0, 5.0], 2).is_none());
+        assert_eq!(er_ref(&[5.0], 2).unwrap().val.to_f64(), 1.0);
+        // FastStochastic: window [1,5], x = 2 -> 25 ; flat -> 50
+        assert_eq!(fast_stoch_ref(&[1.0, 5.0], &[1.0, 5.0], 2.0).val.to_f64(), 25.0);
+        assert_eq!(fast_stoch_ref(&[3.0, 3.0], &[3.0, 3.0], 3.0).val.to_f64(), 50.0);
+        // RSI: first output 50; then one gain of 1 with n = 1 (alpha = 1): U = 1, D = 0 -> 100
+        let mut r = RsiRef::new(1);
+        assert_eq!(r.next(10.0).unwrap().val.to_f64(), 50.0);
+        assert_eq!(r.next(11.0).unwrap().val.to_f64(), 100.0);
+        assert!(r.next(11.0).is_none());
+        // CCI of the documented formula on TPs 10, 11, 12 (n = 3): mean 11, MAD 2/3, (12-11)/(0.015*2/3) = 100
+        let b = |x: f64| RawBar { o: x, h: x + 1.0, l: x - 1.0, c: x, v: 1.0 };
+        let bars = [b(10.0), b(11.0), b(12.0)];
+        assert!((cci_ref(&bars, 3, 12.0).unwrap().val.to_f64() - 100.0).abs() < 1e-12);
+        // MFI(2): TPs 10 -> 11 (vol 2) -> 10.5 (vol 4): PMF = 22, NMF = 42 -> 100*22/64
+        let bv = |x: f64, v: f64| RawBar { o: x, h: x, l: x, c: x, v };
+        let m = mfi_ref(&[bv(10.0, 1.0), bv(11.0, 2.0), bv(10.5, 4.0)], 2, 1e-12);
+        assert_eq!(m.pmf.to_f64(), 22.0);
+        assert_eq!(m.nmf.to_f64(), 42.0);
+        assert!(!m.tainted);
+    }
+    #[test]
+    fn tie_rules() {
+        let a = RawBar { o: 9.0, h: 10.0, l: 8.0, c: 9.0, v: 1.0 };
+        let b = RawBar { o: 9.0, h: 11.0, l: 7.0, c: 9.0, v: 1.0 };
+        // equal typical prices from different bars with exactly representable sums: unambiguous for the
+        // plain rule, ambiguous for the strict one (used when the stream is also evaluated after rescaling)
+        assert!(tp_pair_unambiguous(&a, &b, 1e-12));
+        assert!(!tp_pair_unambiguous_ex(&a, &b, 1e-12, false));
+        assert!(tp_pair_unambiguous_ex(&a, &a, 1e-12, false));
+        let c = RawBar { o: 9.0, h: 10.0, l: 8.0, c: 9.0 + 1e-15, v: 1.0 };
+        assert!(!tp_pair_unambiguous(&a, &c, 1e-12));
+    }
+    #[test]
+    fn tolerance_helpers() {
+        assert_eq!(tau(0), 1e-12);
+        assert!((tau(1_000_000) - (1e-12 + 1e-6)).abs() < 1e-18);
+        assert_eq!(ulp(1.0), f64::EPSILON);
+        let (lo, hi) = sd_interval(DD::from(4.0), 0.0);
+        assert_eq!((lo, hi), (2.0, 2.0));
+        let (lo, _) = sd_interval(DD::from(1e-20), 1e-10);
+        assert_eq!(lo, 0.0);
+    }
+}
